@@ -28,8 +28,8 @@ META["C20"] = dict(
     text="Kernel-checked bounds on the traversal model's own step counters: update_stages invocations <= entries*(1+functions) (C20_stage_fn_visits), statements walked "
          "<= entries*(maxEntryBody + maxBody*functions) (C20_stage_stmt_visits), for every call graph satisfying CallsEarlier, any depth; Legacy.chain_blowup proves the "
          "un-memoised traversal makes 2^(n+1)-1 invocations on a chain (the defect that was repaired). cfg-guarded hooks count the same events in the real code and the "
-         "check demands EQUALITY of the three counters with the model on every case, plus the proved bounds and a wall-clock budget on chain/diamond/fan-out/nested "
-         "families up to depth 64 run under a hard timeout. Partial: wall-clock is measured, not proved; the bound on add_types_recursive calls is checked on real counts, its proof is in Props/C20Types when present.",
+         "check demands EQUALITY of the three counters with the model on every case, plus the proved bounds and a wall-clock budget on chain / diamond / fan-out / nested-struct / else-if / "
+         "nested-switch / override-ladder families run under a hard timeout, and on > 64 KiB outputs with the real formatter on. Partial: wall-clock is measured, not proved; the bound on add_types_recursive calls is checked on real counts, its proof is in Props/C20Types when present.",
     design_ref="DESIGN.md section 5 (C20)",
     note="Trusts: hook counters count exactly the modelled calls; each step is O(log n) container work; timing thresholds are >= 20x observed and never decide alone.",
     technique="Lean 4 proof of step-count bounds + hook-counter equality with the real code + timed deterministic families",
@@ -140,7 +140,8 @@ META["C16"] = dict(
 META["C17"] = dict(
     text="Kernel-checked, with the front end and validator as parameters: C17_parse (a rejected source yields the parse error carrying the front end's diagnostic, before anything that can "
          "panic), C17_validate, C17_gate (for sources that pass, validation on = validation off; gen_validate_irrelevant), C17_total. Partial: naga and codespan are oracles; the corrupt harness "
-         "compares the real calls with naga called directly on ~1300 corrupted sources per run (class, message, all four emit_* renderers, no panic).",
+         "compares the real calls with naga called directly on ~1300 corrupted sources per run (class, message, all four emit_* renderers incl. odd paths, no panic); corruption kinds include defects only the validator's constants / override pass sees, > 8 KiB lines of multi-byte "
+         "characters, errors at the very end of a newline-terminated source, deep parentheses and bracket-filled comments; a source naga's front end rejects must come back as the parse error in every check's correspondence.",
     design_ref="DESIGN.md section 5 (C17)",
     note="Trusts: naga's parser/validator/codespan; the model of the two gates is tied to the code by the corruption stream and the validation on/off correspondence.",
     technique="Lean 4 proof over a parametric model + differential run against naga on corrupted sources",
@@ -148,7 +149,9 @@ META["C17"] = dict(
 META["C18"] = dict(
     text="Kernel-checked C18_set_order / C18_perm: the struct section does not depend on the order (or multiplicity) in which the HashSet of variable types is enumerated -- only on "
          "membership; everything else in the model is a Lean function of (module, options, source, path). Partial: processes, threads and hash seeds are runtime: the determinism harness "
-         "re-runs every case in-process, in 4 children with different cwd/env/hash seeds/orders and on 16 threads and compares bytes; strace shows no file or process syscalls during generation. "
+         "re-runs every case in-process, in 4 children with different cwd/env/hash seeds/orders and on 16 threads and compares bytes; strace shows no file or process syscalls during generation; a child may print nothing but its result lines; calls that end in panics and errors (provoke stream) take part; 6 threads on "
+         "different > 64 KiB shaders and 4 x cores threads with rustfmt on; a sequence harness regenerates a reference shader after every case; every other pipeline of EVERY check generates under a "
+         "build-script environment. "
          "The whole-output correspondence ties the model to the code.",
     design_ref="DESIGN.md section 5 (C18)",
     note="Trusts: environment reads are not syscalls (covered by differing-environment runs only); rustfmt=true delegates to whatever `rustfmt` is on PATH.",
@@ -158,7 +161,8 @@ META["C19"] = dict(
     text="Kernel-checked C19 = C19_faults (every listed fault -- absent, exit != 0 with or without reading, killed, nothing printed, invalid UTF-8 -- returns the unformatted program), "
          "C19_ok, C19_total (never panics) over the spawn/write/wait state machine ProcEnv; C19_legacy_counterexample documents the repaired defect. Partial: which OS answers a fault produces, "
          "hangs, and token preservation by the formatters are observed by the faults harness (stub formatters, inputs below/above the pipe buffer, hard timeout) and by rustfmt-on vs -off "
-         "token comparison; open known finding: prettyplease drops an empty statement that rustfmt keeps.",
+         "token comparison (default options and all derive switches on, three representations); faults include repeated failures in one process, a long failed run followed by a working one, a formatter "
+         "that closes its stdout and fails later, RUSTFMT set to a path / empty / blank / a command line; open known finding: prettyplease drops an empty statement that rustfmt keeps.",
     design_ref="DESIGN.md section 5 (C19)",
     note="Trusts: ProcEnv mapping (OS pipe semantics) established by stubs; timeouts 30 s vs ~2 s observed.",
     technique="Lean 4 proof over a process-interaction state machine + fault injection with stub formatters",
